@@ -16,6 +16,7 @@ Plan gen_c08(uint64_t seed, int tier)
   FOInfo fi = fo_info(fo);
   gen_sched(p, r);
   gen_backend(p, r);
+  gen_backend_mode(p, r);
   p.cfg["grace_us"] = r.pick<int64_t>({0, 1, 1});
   gen_loggers_and_sinks(p, r, 2, 2, false);
   fix_timescale(p);
